@@ -62,6 +62,8 @@ struct F {
     generic: bool,
     /// `T` is declared but appears in no parameter: callers (and the un-mocked call) have to name it
     phantom: bool,
+    /// a trailing `impl Trait` argument (matched with `_`)
+    impl_arg: bool,
 }
 
 impl F {
@@ -86,12 +88,19 @@ impl F {
         for p in &self.params {
             ps.push(format!("{}: {}", p.pat(&self.name), p.vt.ty("T")));
         }
+        if self.impl_arg {
+            ps.push("xtail: impl ::core::fmt::Debug + Send + Sync + 'static".into());
+        }
         let id = if self.deps == 2 { "0usize".to_string() } else { "rt::addr(deps)".to_string() };
         let mut body = format!("    let __id: usize = {id};\n");
         let mut parts = vec![];
         for (i, p) in self.params.iter().enumerate() {
             body.push_str(&format!("    let __a{i}: String = {};\n", p.trace_expr(&self.name).unwrap_or_else(|| "String::new()".into())));
             parts.push(format!("__a{i}.as_str()"));
+        }
+        if self.impl_arg {
+            body.push_str("    let __atail: String = format!(\"{:?}\", xtail);\n");
+            parts.push("__atail.as_str()".to_string());
         }
         if self.is_async {
             body.push_str("    rt::yield_once().await;\n");
@@ -102,11 +111,19 @@ impl F {
         format!("{vis}{}fn {}{g}({}) -> String {{\n{body}}}", if self.is_async { "async " } else { "" }, self.name, ps.join(", "))
     }
     fn args(&self) -> String {
-        self.params.iter().enumerate().map(|(i, p)| p.vt.expr(i)).collect::<Vec<_>>().join(", ")
+        let mut a: Vec<String> = self.params.iter().enumerate().map(|(i, p)| p.vt.expr(i)).collect();
+        if self.impl_arg {
+            a.push("77u8".into());
+        }
+        a.join(", ")
     }
     fn patterns(&self, rot: usize) -> String {
         let n = self.params.len();
-        (0..n).map(|i| pattern_of(&self.params[i], (i + rot) % n.max(1))).collect::<Vec<_>>().join(", ")
+        let mut p: Vec<String> = (0..n).map(|i| pattern_of(&self.params[i], (i + rot) % n.max(1))).collect();
+        if self.impl_arg {
+            p.push("_".into());
+        }
+        p.join(", ")
     }
     /// is there a rotation of the values that differs from the identity but still type-checks position-wise
     fn rotation(&self) -> Option<usize> {
@@ -134,6 +151,9 @@ impl F {
         let (a, b) = self.swap_pair()?;
         let mut pats: Vec<String> = (0..self.params.len()).map(|i| pattern_of(&self.params[i], i)).collect();
         pats.swap(a, b);
+        if self.impl_arg {
+            pats.push("_".into());
+        }
         Some(pats.join(", "))
     }
 }
@@ -163,7 +183,7 @@ pub fn gen_case(t: &mut Tape) -> Case {
     let summary;
     let export_via_macro = t.flip();
     let (mac, exp) = if export_via_macro { ("::entrait::entrait_export", "") } else { ("::entrait::entrait", ", export") };
-    let gen_f = |t: &mut Tape, name: &str, tag: &str, deps_pool: &[u8]| F { name: name.into(), tag: tag.into(), is_async: t.chance(1, 3), deps: *t.pick(deps_pool), params: gen_params(t), generic: false, phantom: false };
+    let gen_f = |t: &mut Tape, name: &str, tag: &str, deps_pool: &[u8]| F { name: name.into(), tag: tag.into(), is_async: t.chance(1, 3), deps: *t.pick(deps_pool), params: gen_params(t), generic: false, phantom: false, impl_arg: false };
     // checks for one mockable fn reachable as `$call(args)` on a Unimock, API path `$api`
     let via_call = |f: &F, args: &str| {
         if f.phantom {
@@ -236,6 +256,11 @@ pub fn gen_case(t: &mut Tape) -> Case {
                 f.phantom = true;
                 classes.push("fn:type_parameter_in_no_argument");
             }
+            // an `impl Trait` argument (next to whatever else the fn is generic over)
+            if f.deps != 3 && t.chance(1, 4) {
+                f.impl_arg = true;
+                classes.push("fn:impl_trait_argument");
+            }
             let nd = if f.deps == 2 { ", no_deps" } else { "" };
             // the fn may come out of a `macro_rules!` expansion with two same-spelled parameters (one written in the macro, one
             // passed in): the un-mock expression and the delegation must forward each identifier, not a spelling
@@ -251,7 +276,8 @@ pub fn gen_case(t: &mut Tape) -> Case {
             } else {
                 src.push_str(&format!("/*GEN*/ #[{mac}(pub TheTrait, mock_api = TheMock{nd}{exp})]\n{}\n", f.render("")));
             }
-            checks(&f, if f.generic { "TheMock.with_types::<i64>()" } else { "TheMock" }, "", f.deps != 3, &mut run, &mut classes, &mut nontrivial);
+            // (unimock makes the API generic over the fn's type parameters and over the types behind `impl Trait` arguments)
+            checks(&f, match (f.generic, f.impl_arg) { (true, true) => "TheMock.with_types::<i64, u8>()", (true, false) => "TheMock.with_types::<i64>()", (false, true) => "TheMock.with_types::<u8>()", _ => "TheMock" }, "", f.deps != 3, &mut run, &mut classes, &mut nontrivial);
             classes.push(["fn:generic_deps", "fn:impl_deps", "fn:no_deps", "fn:concrete_deps"][f.deps as usize]);
             if f.deps == 2 && f.params.len() >= 2 {
                 nontrivial = true;
@@ -419,6 +445,19 @@ pub fn run(ctx: &mut Ctx) {
                 ctx.count_eval();
                 ctx.violation(
                     &format!("the generated mock wiring of a fn whose type parameter appears in no argument does not compile (the un-mocked call cannot infer it): {} -- in {}", d.first().map(|x| format!("{} {}", x.code, x.message)).unwrap_or_default(), cases[i].summary),
+                    &json!({"engine": "E2", "src": cases[i].src, "summary": cases[i].summary, "expect": "compiles"}),
+                );
+                return;
+            }
+        }
+        // the wiring the macro asks for names a value that does not exist: the error sits on the attribute itself
+        // (the user's own code and unimock's known limits do not produce that: the generator has no const generics)
+        for (id, d) in &out.compile_failed {
+            let i: usize = id[1..].parse().unwrap_or(0);
+            if let Some(x) = d.iter().find(|x| x.code == "E0425" && x.message.starts_with("cannot find value") && x.rendered.contains("/*GEN*/ #[")) {
+                ctx.count_eval();
+                ctx.violation(
+                    &format!("the generated mock wiring refers to a value that does not exist: {} -- in {}", x.message, cases[i].summary),
                     &json!({"engine": "E2", "src": cases[i].src, "summary": cases[i].summary, "expect": "compiles"}),
                 );
                 return;
